@@ -229,6 +229,13 @@ func (w *Writer) Delete(bs []byte) (success bool) {
 
 // Delete2 is same as Delete(). Additionally returns the deleted item's node
 func (w *Writer) Delete2(bs []byte) (n *skiplist.Node, success bool) {
+	// Hold an accessor token from the lookup until the delete is done: the
+	// node found must not be reclaimed in between (another writer may delete
+	// the same item concurrently)
+	barrier := w.store.GetAccesBarrier()
+	token := barrier.Acquire()
+	defer barrier.Release(token)
+
 	if n := w.GetNode(bs); n != nil {
 		return n, w.DeleteNode(n)
 	}
@@ -246,15 +253,20 @@ func (w *Writer) DeleteNode(x *skiplist.Node) (success bool) {
 	}()
 
 	verifYield(vpDelNodeEntry, w.Nitro, unsafe.Pointer(x), nil)
-	x.SetLink(nil)
 	sn := w.GetCurrSn()
 	gotItem := (*Item)(x.Item())
 	if gotItem.bornSn == sn {
 		success = w.store.DeleteNode(x, w.insCmp, w.buf, &w.slSts1)
 
-		barrier := w.store.GetAccesBarrier()
-		verifYield(vpDelNodeFlush, w.Nitro, unsafe.Pointer(x), nil)
-		barrier.FlushSession(unsafe.Pointer(x))
+		// Only the writer that deleted the node owns it: a writer that lost
+		// the race must neither reset its link nor hand it to the reclaimer
+		// a second time
+		if success {
+			x.SetLink(nil)
+			barrier := w.store.GetAccesBarrier()
+			verifYield(vpDelNodeFlush, w.Nitro, unsafe.Pointer(x), nil)
+			barrier.FlushSession(unsafe.Pointer(x))
+		}
 		return
 	}
 
@@ -262,6 +274,9 @@ func (w *Writer) DeleteNode(x *skiplist.Node) (success bool) {
 	success = atomic.CompareAndSwapUint32(&gotItem.deadSn, 0, sn)
 	if success {
 		verifYield(vpDelNodeAppend, w.Nitro, unsafe.Pointer(x), nil)
+		// The node is ours now: it may already be the tail of the winner's
+		// garbage list if we lost, so the link is reset by the winner only
+		x.SetLink(nil)
 		if w.gctail == nil {
 			w.gctail = x
 			w.gchead = w.gctail
